@@ -1,0 +1,109 @@
+//! Verification hooks (cargo feature `verif-hooks`).
+//!
+//! Everything in here is inert until an external harness installs a callback or
+//! enables tracing; with the feature off this module is not compiled at all.
+
+use std::cell::{Cell, RefCell};
+use std::sync::OnceLock;
+use std::sync::atomic::{AtomicBool, Ordering};
+use std::time::Duration;
+
+pub type PointFn = dyn Fn(u32, u64) + Send + Sync + 'static;
+
+static POINT: OnceLock<Box<PointFn>> = OnceLock::new();
+static TIMER_EXPIRED: AtomicBool = AtomicBool::new(false);
+
+/// Installs the process-wide scheduling-point callback (first call wins).
+pub fn install(f: Box<PointFn>) {
+    let _ = POINT.set(f);
+}
+
+/// A scheduling point. No-op until a callback is installed.
+#[inline]
+pub fn point(id: u32, arg: u64) {
+    if let Some(f) = POINT.get() {
+        f(id, arg);
+    }
+}
+
+/// Declares the (virtual) process timer expired / not expired.
+pub fn set_timer_expired(expired: bool) {
+    TIMER_EXPIRED.store(expired, Ordering::SeqCst);
+}
+
+/// Identity until the harness has declared the timer expired, then zero, so that the
+/// original comparison `start.elapsed() >= timeout` still takes the decision.
+#[must_use]
+pub fn effective_timeout(timeout: Duration) -> Duration {
+    if TIMER_EXPIRED.load(Ordering::SeqCst) { Duration::ZERO } else { timeout }
+}
+
+pub mod process_points {
+    pub const SPAWNED: u32 = 1;
+    pub const READER_START: u32 = 10;
+    pub const READER_BEFORE_READ: u32 = 11;
+    pub const READER_AFTER_READ: u32 = 12;
+    pub const READER_AFTER_FLAG: u32 = 13;
+    pub const READER_END: u32 = 14;
+    pub const WAIT_TOP: u32 = 20;
+    pub const WAIT_BEFORE_TRYWAIT: u32 = 21;
+    pub const WAIT_BEFORE_CLOCK: u32 = 22;
+    pub const WAIT_BEFORE_SLEEP: u32 = 23;
+    pub const TERMINATED: u32 = 24;
+    pub const JOIN_BEFORE: u32 = 30;
+    pub const JOIN_AFTER: u32 = 31;
+    pub const WRITER_START: u32 = 40;
+}
+
+/// Counters of what one runtime execution did to its storage and its statements.
+#[derive(Debug, Default, Clone, Copy, PartialEq, Eq)]
+pub struct RuntimeTrace {
+    pub frame_resets: u64,
+    pub pool_returns: u64,
+    pub promote_copies: u64,
+    pub stmts_executed: u64,
+    pub stmts_skipped: u64,
+    pub functions_skipped: u64,
+}
+
+thread_local! {
+    static TRACE: Cell<RuntimeTrace> = const { Cell::new(RuntimeTrace {
+        frame_resets: 0, pool_returns: 0, promote_copies: 0,
+        stmts_executed: 0, stmts_skipped: 0, functions_skipped: 0,
+    }) };
+    static EXECUTED: RefCell<Option<Vec<u32>>> = const { RefCell::new(None) };
+}
+
+/// Resets the calling thread's trace; `record_executed` additionally records the id of
+/// every statement executed (when the runtime runs with analysis facts attached).
+pub fn trace_begin(record_executed: bool) {
+    TRACE.with(|t| t.set(RuntimeTrace::default()));
+    EXECUTED.with(|e| *e.borrow_mut() = if record_executed { Some(Vec::new()) } else { None });
+}
+
+/// Returns the calling thread's counters and (if recorded) the executed statement ids.
+#[must_use]
+pub fn trace_end() -> (RuntimeTrace, Option<Vec<u32>>) {
+    (TRACE.with(Cell::get), EXECUTED.with(|e| e.borrow_mut().take()))
+}
+
+#[inline]
+pub(crate) fn trace(f: impl FnOnce(&mut RuntimeTrace)) {
+    TRACE.with(|t| {
+        let mut v = t.get();
+        f(&mut v);
+        t.set(v);
+    });
+}
+
+#[inline]
+pub(crate) fn stmt_executed(id: Option<u32>) {
+    trace(|t| t.stmts_executed += 1);
+    if let Some(id) = id {
+        EXECUTED.with(|e| {
+            if let Some(v) = e.borrow_mut().as_mut() {
+                v.push(id);
+            }
+        });
+    }
+}
